@@ -487,7 +487,7 @@ Next ==
      \/ On("move") /\ \E s \in Slots, t \in Slots : Move(s, t)
      \/ On("range") /\ \E s \in Slots, t \in Slots : Range(s, t)
      \/ On("layout") /\ \E s \in Slots, t \in Slots : \/ \E f2 \in Fams : FromLayout(s, t, f2)
-                                                       \/ TakeLayout(s, t) \/ AssignLayout(s, t) \/ MoveLayout(s, t)
+                                                      \/ TakeLayout(s, t) \/ AssignLayout(s, t) \/ MoveLayout(s, t)
      \/ On("push") /\ \E s \in Slots : Push(s)
      \/ On("clear") /\ \E s \in Slots : Clear(s)
      \/ On("destroy") /\ \E s \in Slots : Destroy(s)
